@@ -10,7 +10,7 @@ for d in seeded/*/; do
   prop=$(python3 -c "import json;print(json.load(open('$d/meta.json'))['breaks_property'])")
   wt=/dev/shm/seedwt-$id
   rm -rf $wt; git -C /repo worktree add -q --detach $wt HEAD || continue
-  if git -C $wt apply $PWD/$d/patch.diff; then
+  if git -C $wt apply --3way $PWD/$d/patch.diff >/dev/null 2>&1; then
     VERIF_REPO=$wt VERIF_BUDGET_S=${SEED_BUDGET_S:-40} ./vcheck $prop --tier quick > out/logs/regress.$id.log 2>&1; rc=$?
     if [ $rc -ne 1 ]; then
       VERIF_REPO=$wt VERIF_BUDGET_S=${SEED_THOROUGH_S:-240} ./vcheck $prop --tier thorough > out/logs/regress.$id.thorough.log 2>&1; rc2=$?
